@@ -145,7 +145,41 @@ def invalidate(draw, m):
 
 
 @st.composite
+def bad_typedef(draw, m):
+    """A well-formed file whose typedef violates a validation rule the instantiator states
+    explicitly ("Typenames and instantiations mismatch!", "Cannot find class ... in module!"):
+    the parser accepts it, both generators and all scripts must fail."""
+    tpls = [(p, it) for p, it in M.iter_items(m)
+            if isinstance(it, M.Class) and it.template is not None]
+    extra = []
+    if tpls and draw(st.booleans()):
+        path, cls = draw(st.sampled_from(tpls))
+        n = len(cls.template.params)
+    else:
+        path, n = (), draw(st.integers(1, 2))
+        cls = M.Class('ZzTpl', (), M.Template(tuple(M.TParam(x) for x in ('T', 'U')[:n])))
+        extra.append(cls)
+    kind = draw(st.sampled_from(['typedef-surplus', 'typedef-surplus', 'typedef-short',
+                                 'typedef-unknown']))
+    args = ['double', 'int', 'bool', 'size_t', 'char']
+    name = cls.name
+    if kind == 'typedef-short' and n >= 2:
+        k = draw(st.integers(1, n - 1))
+    elif kind == 'typedef-unknown':
+        k, name = n, cls.name + 'NoSuch'
+    else:
+        kind, k = 'typedef-surplus', n + draw(st.integers(1, 2))
+    td = M.Typedef(M.Type(tuple(path), name, tuple(M.Type((), a) for a in args[:k])), 'ZzBad')
+    return M.Module(tuple(m.content) + tuple(extra) + (td,)), kind
+
+
+@st.composite
 def cases(draw, tier):
+    if draw(st.integers(0, 15)) == 5:
+        m0 = draw(G.modules(G.SEMANTIC))
+        m2, kind = draw(bad_typedef(m0))
+        return {'text': R.text(m2), 'orig': R.text(m0), 'log': [('invalid-at-generation', kind)],
+                'e2e': True, 'scripts': draw(st.integers(0, 3)) == 0, 'must_fail': True}
     prof = draw(st.sampled_from([G.DIALECT, G.SEMANTIC]))
     m = draw(G.modules(prof))
     toks = R.module_toks(m)
@@ -222,7 +256,11 @@ def check_parse(text):
     except Exception as e:
         name = type(e).__name__
         return 'rejected', [], None if name in ACCEPTABLE_ERRORS else name
-    got, problems = P.project(tree)
+    try:
+        got, problems = P.project(tree)
+    except P.MalformedTree as e:
+        return 'accepted', [Failure('C07.tree-malformed', 'accepted, but the tree cannot be '
+                                    'read back: %s' % str(e)[:200])], None
     text2 = R.text(got)
     a, b = prim(text), prim(text2)
     out = []
@@ -265,7 +303,7 @@ def _snapshot(root):
     return snap
 
 
-def check_e2e(text, scripts):
+def check_e2e(text, scripts, must_fail=False):
     """Run generators against pre-seeded output; a failing run must leave everything as it
     was."""
     out = []
@@ -297,6 +335,9 @@ def check_e2e(text, scripts):
             except BaseException:
                 failed = True
             after = _snapshot(work)
+            if must_fail and not failed:
+                out.append(Failure('C07.invalid-accepted-by-generator',
+                                   '%s succeeded on input violating a validation rule' % label))
             if failed and after != before:
                 changed = sorted(k for k in set(before) | set(after)
                                  if before.get(k) != after.get(k))
@@ -366,7 +407,7 @@ def check(case):
         fails = fails + [Failure('C07.invalid-accepted', 'input violating validation rule %s is '
                                  'accepted' % (case['log'],))]
     if case.get('e2e'):
-        fails = fails + check_e2e(case['text'], case.get('scripts'))
+        fails = fails + check_e2e(case['text'], case.get('scripts'), case.get('must_fail'))
     return fails
 
 
@@ -415,6 +456,11 @@ def fixtures():
               "class A { A operator+(double a) const; };\n"):
         out.append({'text': t, 'orig': t, 'log': [('invalid', 'fixed-example')], 'e2e': False,
                     'scripts': False, 'must_reject': True})
+    for t in ("template<T, U> class P { T a; };\ntypedef P<double, int, bool> P3;\n",
+              "namespace n { template<T, U> class P { T a; }; }\ntypedef n::P<double> P1;\n",
+              "template<T> class P { T a; };\ntypedef Q<double> Qd;\n"):
+        out.append({'text': t, 'orig': t, 'log': [('invalid-at-generation', 'fixed-example')],
+                    'e2e': True, 'scripts': True, 'must_fail': True})
     bad = "class A { A(); void f(int x) };\n"
     out.append({'text': bad, 'orig': bad, 'log': [], 'e2e': True, 'scripts': True})
     return out
@@ -434,7 +480,9 @@ SPEC = Spec(
          "token, stray token from the file's own vocabulary or punctuation/keywords, drop one "
          "bracket, misspell a keyword, unterminated '/*', '//' in front of code), or (1 in 6) a "
          "model-level violation of an explicit validation rule (misspelled constructor, invalid "
-         "unary operator, two-argument operator, mixed-type operator) which must be rejected. "
+         "unary operator, two-argument operator, mixed-type operator) which must be rejected, "
+         "or (1 in 16) a parseable file whose typedef has too many / too few template arguments "
+         "or names no declared template, on which every generator entry point must fail. "
          "Oracle: "
          "parseString raises, or the accepted tree re-rendered has the same primitive-token "
          "multiset as the comment-stripped input and re-parses to itself. 1 in 40 cases (1 in 20 "
